@@ -49,7 +49,12 @@ GroupA       == Do("Group", GroupItems(items, Pre))
 Ungroup      == Do("Ungroup", Flatten(items))
 DeleteShadow == Do("DeleteShadow", DeleteShadowLeaves(items, {}))
 Reverse      == Gen /\ Do("Reverse", [k \in 1..Len(items) |-> items[Len(items) + 1 - k]])
-Next == depth < MaxDepth /\ (UngroupPorts \/ GroupA \/ Ungroup \/ DeleteShadow \/ Reverse)
+(* IOS -> NX-OS: one port per side, then the blocks are rebuilt when the list is grouped (items hold blocks) *)
+Grouped(its) == \E k \in 1..Len(its) : IsBlock(its[k])
+ToNxos       == ~Gen /\ Do("ToNxos", IF Grouped(items) THEN GroupItems(UngroupPortsItems(items), Pre) ELSE UngroupPortsItems(items))
+(* acl.type = "standard": refused (list untouched) when a source names a group *)
+ToStandard   == ~Gen /\ Do("ToStandard", IF StandardRefused(items) THEN items ELSE ToStandardItems(items))
+Next == depth < MaxDepth /\ (UngroupPorts \/ GroupA \/ Ungroup \/ DeleteShadow \/ Reverse \/ ToNxos \/ ToStandard)
 Spec == Init /\ [][Next]_vars
 
 (* --- C15: after resequencing, sorting any permutation of the top-level items restores the numbered order ----- *)
@@ -99,6 +104,22 @@ P_C15 ==
                        /\ SameDecisions(prev, items) \/ ~HeadingsDistinct(prev, Pre)
                        /\ Tcam(items) = Tcam(prev)
   /\ last = "Ungroup" => items = Flatten(prev) /\ Tcam(items) = Tcam(prev)
+(* C02 at model level: converting to NX-OS keeps every decision (unless a multi-port neq is split, F1), leaves one port
+   per side, keeps remarks and headings, and the estimate of hardware entries *)
+P_C02 == last = "ToNxos" =>
+  /\ ~UnsafeSplitIn(prev) => SameDecisions(prev, items)
+  /\ \A k \in 1..Len(Flatten(items)) : LET x == Flatten(items)[k] IN
+        IsAce(x) => (x.f.sp.op \in {"eq", "neq"} => Len(x.f.sp.items) = 1) /\ (x.f.dp.op \in {"eq", "neq"} => Len(x.f.dp.items) = 1)
+  /\ HeadingsDistinct(prev, Pre) => SelectSeq(Flatten(items), IsRemark) = SelectSeq(Flatten(prev), IsRemark)
+(* type change (not a listed property): accepted exactly when no source names a group; every entry then matches at least
+   what it matched before, with the same action, in the same place; a refused change leaves the list untouched *)
+Widened(a, b) == \A p \in Packets : Matches(Ent(a), p) => Matches(Ent(b), p)
+P_Type == last = "ToStandard" =>
+  IF StandardRefused(prev) THEN items = prev
+  ELSE /\ Len(Flatten(items)) = Len(Flatten(prev))
+       /\ \A k \in 1..Len(Flatten(prev)) : LET a == Flatten(prev)[k]  b == Flatten(items)[k] IN
+             IF IsAce(a) THEN IsAce(b) /\ b.f.act = a.f.act /\ b.id = a.id /\ Widened(a, b) /\ b.f.src = a.f.src ELSE b = a
+       /\ ToStandardItems(items) = items
 View == <<items, prev, last, depth>>
 GenHist == (Gen /\ depth = MaxDepth) => PrintT(ToJson([seed |-> seed, ops |-> ops]))
 =============================================================================
